@@ -844,7 +844,12 @@ pub fn emit(prop: &str, g: &mut Gen, out: &mut Vec<String>) {
         }
         "C07" => {
             let (ct, oc) = g.cal();
-            let (y, m, d) = g.ymd(&oc);
+            let (mut y, m, d) = g.ymd(&oc);
+            if g.rng.chance(1, 12) {
+                // "all years in i32": any year of the type, and the years a packed or truncated
+                // comparison would confuse with the reformation's
+                y = if g.rng.chance(1, 2) { g.alias_year(y) } else { g.year(&oc) };
+            }
             push(out, format!("at_ymd {ct} {y} {m} {d}"));
             let o = g.ordinal_arg(&oc, y);
             push(out, format!("at_ord {ct} {y} {o}"));
